@@ -4,6 +4,7 @@ package c13
 import (
 	"encoding/json"
 	"fmt"
+	"strings"
 	"testing"
 
 	"pgregory.net/rapid"
@@ -69,7 +70,7 @@ func check(t ev.TB, c Case, labels ...string) {
 			watcherNodes[st.Node] = true
 		}
 	}
-	nt := c.Cause == "failnode" || len(watcherNodes) >= 2
+	nt := strings.Contains(c.Cause, "failnode") || len(watcherNodes) >= 2
 	ev.Case(nt, c, append(labels, "cause:"+c.Cause, fmt.Sprintf("nodes:%d", c.Nodes))...)
 	if f != nil && f.inconclusive {
 		ev.Count("inconclusive_cases", 1)
@@ -145,6 +146,23 @@ func genCase(t *rapid.T, nodeFailure bool) Case {
 		steps = append(steps, sim.Step{Op: "disconnect", C: 0}, sim.Step{Op: "failnode", Node: c.WillNode})
 	case "close+failnode":
 		steps = append(steps, sim.Step{Op: "close", C: 0}, sim.Step{Op: "failnode", Node: c.WillNode})
+	}
+	if nodeFailure && rapid.Bool().Draw(t, "secondLife") {
+		// the failed node comes back under the same node id, hosts another session with a will,
+		// and fails again (optionally a third time): every life's wills are published once
+		lives := rapid.IntRange(1, 2).Draw(t, "moreLives")
+		for l := 0; l < lives; l++ {
+			cNew := c.Clients
+			c.Clients++
+			will2 := &sim.Will{Topic: rapid.SampledFrom(willTopics).Draw(t, "willTopic2"), Payload: fmt.Sprintf("last-words-of-life-%d", l+2), QoS: byte(rapid.IntRange(0, 2).Draw(t, "willQos2")), Retain: rapid.IntRange(0, 3).Draw(t, "willRetain2") == 0}
+			steps = append(steps, sim.Step{Op: "restartnode", Node: c.WillNode},
+				sim.Step{Op: "connect", C: cNew, Node: c.WillNode, ClientID: rapid.SampledFrom([]string{"dying", "dying-again"}).Draw(t, "cid2"), KeepAlive: ka, MP: willMP, Will: will2})
+			if rapid.Bool().Draw(t, "idleBetween") {
+				steps = append(steps, sim.Step{Op: "idle", C: cNew, IdleMs: 500})
+			}
+			steps = append(steps, sim.Step{Op: "failnode", Node: c.WillNode})
+		}
+		c.Cause += "+restart+failnode"
 	}
 	// afterwards: a late subscriber (retained wills) and an idle so that nothing else shows up
 	late := rapid.IntRange(1, c.Clients-1).Draw(t, "late")
